@@ -37,6 +37,8 @@ const prelude = `(set-option :produce-models true)
 (assert (forall ((s Str)) (! (= (unbox!Str (box!Str s)) s) :pattern ((box!Str s)))))
 (assert (forall ((a Int) (b Int)) (! (not (= (fref a b) 0)) :pattern ((fref a b)))))
 (assert (forall ((a Int) (b Int)) (! (not (= (eref a b) 0)) :pattern ((eref a b)))))
+(declare-fun slot (Int Int) Int)
+(assert (forall ((a Int) (b Int)) (! (= (slot a b) (+ a b)) :pattern ((slot a b)))))
 (define-fun iface-nil () Iface (mk-iface 0 0))
 (define-fun slice-nil () Slice (mk-slice 0 0 0 0))
 (define-fun wfslice ((s Slice)) Bool (and (<= 0 (s-off s)) (<= 0 (s-len s)) (<= (s-len s) (s-cap s)) (<= (+ (s-off s) (s-cap s)) 9223372036854775807)))
